@@ -85,6 +85,10 @@ def execute(queue, secure, make="scheme", slow=False, late=False):
                     if s == "ok":
                         rig.answer(ok(rid))
                         outstanding -= 1
+                    elif s == "notmod":
+                        # a final answer that has no body by definition (304) although it names the length of the entity
+                        rig.answer(b"HTTP/1.1 304 Not Modified\r\nContent-Length: 10\r\nETag: \"e%d\"\r\n\r\n" % rid)
+                        outstanding -= 1
                     elif s == "created":
                         # a final answer that is NOT a redirect but carries a Location field (201 Created): nothing to follow
                         rig.answer(ok(rid).replace(b"200 OK\r\n", b"201 Created\r\nLocation: " + nxt + b"\r\n", 1))
@@ -161,7 +165,7 @@ def judge(rec, real, secure):
     if got != want:
         return "%s: response queue is %s, should be %s" % (desc, got, want)
     for r in real["responses"]:
-        final = 201 if (r["rid"] and q[r["rid"] - 1] == "created") else 200
+        final = {"created": 201, "notmod": 304}.get(q[r["rid"] - 1], 200) if r["rid"] else 200
         if r["kind"] == "ok" and (r["status"] != final or any(s != 302 for s in r["redirect_statuses"])):
             return "%s: response for request %s has status %s with redirect history %s" % (desc, r["rid"], r["status"], r["redirect_statuses"])
     wwant = [{"rid": w["rid"], "port": PORT[w["host"]], "hop": w["hop"]} for w in rec["wire"]]
@@ -171,7 +175,7 @@ def judge(rec, real, secure):
 
 
 def run(ctx):
-    scripts = {"ok", "delay", "created", "redir-rel", "redir-abs", "redir-2", "redir-2bad", "redir-other", "redir-down", "close-before", "close-during"}
+    scripts = {"ok", "delay", "created", "notmod", "redir-rel", "redir-abs", "redir-2", "redir-2bad", "redir-other", "redir-down", "close-before", "close-during"}
     inv = ["OneAtATime", "FifoOneToOne", "WireInQueueOrder", "RedirectTransparent", "NoDowngrade", "EveryRequestAnswered"]
     for secure in (False, True):
         r = ctx.tlc("http", "ClientQueue", core.cfg_text(constants={"Scripts": scripts, "MaxQ": 3 if ctx.quick else 4, "Secure": secure},
